@@ -519,3 +519,22 @@ def snapshot_diff(tree, snap):
   except Exception as e:
     return f'unreadable: {type(e).__name__}: {str(e)[:100]}'
   return None
+
+
+def round_conditioning(kind, params, opt_state, clients, hp, copt_name, sopt_name):
+  """(ill, wide) for one FedAvg-style round from `params`: True when float32-vs-float64 / summation-order rounding can
+  legitimately change the result by O(lr) (adaptive optimizer meeting a gradient or mean delta of rounding size).
+  clients: [(cid, ClientDataset, key)] with fixed-seed hparams."""
+  copt, sopt = optimizer(copt_name), optimizer(sopt_name)
+  trained, sizes = [], []
+  ill = False
+  for cid, ds, key in clients:
+    batches = list(ds.shuffle_repeat_batch(hparams_obj(hp)))
+    tc, _ = ref_local_train(kind, False, params, batches, key, copt)
+    ill = ill or (ILL['flag'] and copt_name in ('adam', 'adagrad', 'yogi', 'adamw', 'rmsprop', 'adafactor_wd'))
+    trained.append(tc)
+    sizes.append(len(ds))
+  mean = weighted_mean_delta(params, trained, sizes)
+  _, ref = sopt.apply(to32(mean), opt_state, params)
+  _msg, wide = server_step_check(sopt, mean, opt_state, params, ref)
+  return ill, wide
